@@ -150,7 +150,7 @@ out:
 /* vects below the documented minimum: must return non-zero and touch nothing (buffers are made inaccessible) */
 static void case_contract(long idx, rsym *s, vrng *r)
 {
-	int mn = min_vects(s), vects = vrn(r, 3) ? (int) vrn(r, mn) : -(int) vrn(r, 5), len = len_mult(s) * vrr(r, 1, 8), nv = vects > 0 ? vects : 0;
+	int mn = min_vects(s), vects = vrn(r, 3) ? (int) vrn(r, mn) : vrn(r, 4) ? -(int) vrn(r, 5) : (int[]){ -256, -65536, -2147483647 - 1, -2147483647 }[vrn(r, 4)], len = len_mult(s) * vrr(r, 1, 8), nv = vects > 0 ? vects : 0;
 	void **arr = (void **) gs_place(s_arr, 8 * (size_t) nv, G_END, 0);
 	for (int i = 0; i < nv; i++) { arr[i] = gs_place(s_vec[i], len, G_START, 0); v_fill_tag(arr[i], len, 99 + i); }
 	v_setcase(idx, "sym=%s out-of-contract vects=%d len=%d", s->name, vects, len);
